@@ -33,6 +33,10 @@ theorem UnK.mem_all_of {k : UnK} (h : unKnown k = true) : k ∈ UnK.all := by
   | cast to =>
     simp only [unKnown, List.contains_iff_mem] at h
     simp only [UnK.all, List.mem_append, List.mem_map]
+    exact Or.inl (Or.inr ⟨to, h, rfl⟩)
+  | tryCast to =>
+    simp only [unKnown, List.contains_iff_mem] at h
+    simp only [UnK.all, List.mem_append, List.mem_map]
     exact Or.inr ⟨to, h, rfl⟩
   | _ => simp [UnK.all]
 
@@ -212,7 +216,7 @@ mutual
 /-- **Induction over expressions.** If the finite obligations hold for the tables, then for every well-formed expression of
     any depth (and n-ary nodes of any width) the annotator's summary of the root and the engine's class describe the same
     kind of value. -/
-theorem rel_of_tablesOk (h : TablesOk T = true) : ∀ e : TExpr, WF T S e = true → Rel (sm T S e) (eng T S e) = true
+theorem rel_of_tablesOk (h : TablesOk T = true) (hx : extraCheck T = true) : ∀ e : TExpr, WF T S e = true → Rel (sm T S e) (eng T S e) = true
   | .col q n => by
     intro hw
     have hL : leafCheck T = true := by simp only [TablesOk, Bool.and_eq_true] at h; exact h.1.1.1.1.1
@@ -265,13 +269,35 @@ theorem rel_of_tablesOk (h : TablesOk T = true) : ∀ e : TExpr, WF T S e = true
     have hL : leafCheck T = true := by simp only [TablesOk, Bool.and_eq_true] at h; exact h.1.1.1.1.1
     simp only [leafCheck, Bool.and_eq_true, beq_iff_eq] at hL
     simp [sm, eng, hL.1.1.2, Rel, eclassOf, classOf, Sm.ty]
+  | .numLit k => by
+    intro hw
+    simp only [extraCheck, Bool.and_eq_true, List.all_eq_true, beq_iff_eq] at hx
+    have := hx.1.1 k (by cases k <;> simp [NumLitK.all])
+    simp only [WF] at hw
+    rw [hw] at this
+    simpa [sm, eng] using this.symm
+  | .win0 k => by
+    intro _
+    simp only [extraCheck, Bool.and_eq_true, List.all_eq_true] at hx
+    simpa [sm, eng] using hx.1.2 k (by cases k <;> simp [Win0K.all])
+  | .pred3 k a b c => by
+    intro hw
+    simp only [extraCheck, Bool.and_eq_true, List.all_eq_true] at hx
+    have := hx.2 k (by cases k <;> simp [Pred3K.all]) (eng T S a) (ETy.mem_all _) (eng T S b) (ETy.mem_all _)
+      (eng T S c) (ETy.mem_all _)
+    simp only [WF, Bool.and_eq_true] at hw
+    have hne := hw.2
+    simp only [Bool.or_eq_true, beq_iff_eq] at this
+    rcases this with h1 | h2
+    · simp [eng, h1] at hne
+    · simpa [sm, eng] using h2
   | .un k a => by
     intro hw
     have hU : unCheck T = true := by simp only [TablesOk, Bool.and_eq_true] at h; exact h.1.1.1.1.2
     simp only [WF, Bool.and_eq_true] at hw
     obtain ⟨⟨⟨⟨⟨hwa, hto⟩, _⟩, hk⟩, hf⟩, hne⟩ := hw
     simp only [typedOperand, Bool.and_eq_true] at hto
-    have := unCheck_iff T hU k (sm T S a) (eng T S a) hk hto.2 (rel_of_tablesOk h a hwa) hne
+    have := unCheck_iff T hU k (sm T S a) (eng T S a) hk hto.2 (rel_of_tablesOk h hx a hwa) hne
     rw [hf] at this
     simpa [sm, eng] using this.symm
   | .bin k a b => by
@@ -281,7 +307,7 @@ theorem rel_of_tablesOk (h : TablesOk T = true) : ∀ e : TExpr, WF T S e = true
     obtain ⟨⟨⟨⟨hwa, hwb⟩, hta, htb⟩, hf⟩, hne⟩ := hw
     simp only [typedOperand, Bool.and_eq_true] at hta htb
     have := binCheck_iff T hB k (sm T S a) (sm T S b) (eng T S a) (eng T S b) hta.2 htb.2
-      (rel_of_tablesOk h a hwa) (rel_of_tablesOk h b hwb) hne
+      (rel_of_tablesOk h hx a hwa) (rel_of_tablesOk h hx b hwb) hne
     rw [hf] at this
     simpa [sm, eng] using this.symm
   | .tern k c a b => by
@@ -292,7 +318,7 @@ theorem rel_of_tablesOk (h : TablesOk T = true) : ∀ e : TExpr, WF T S e = true
     obtain ⟨⟨⟨⟨⟨⟨_, hwa⟩, hwb⟩, ⟨_, hta⟩, htb⟩, hc⟩, hf⟩, hne⟩ := hw
     simp only [typedOperand, Bool.and_eq_true] at hta htb
     have := ternCheck_iff T hC hT k (sm T S c) (sm T S a) (sm T S b) (eng T S a) (eng T S b) hta.2 htb.2
-      (rel_of_tablesOk h a hwa) (rel_of_tablesOk h b hwb) hne
+      (rel_of_tablesOk h hx a hwa) (rel_of_tablesOk h hx b hwb) hne
     rw [hf] at this
     simpa [sm, eng, hc] using this.symm
   | .nary k args => by
@@ -300,8 +326,8 @@ theorem rel_of_tablesOk (h : TablesOk T = true) : ∀ e : TExpr, WF T S e = true
     have hN : naryCheck T = true := by simp only [TablesOk, Bool.and_eq_true] at h; exact h.2
     simp only [WF, Bool.and_eq_true] at hw
     obtain ⟨⟨hwa, hok⟩, hty⟩ := hw
-    simpa [sm, eng] using nary_sound T hN k _ _ (relArgs_of_tablesOk h args hwa hty) hok
-theorem relArgs_of_tablesOk (h : TablesOk T = true) :
+    simpa [sm, eng] using nary_sound T hN k _ _ (relArgs_of_tablesOk h hx args hwa hty) hok
+theorem relArgs_of_tablesOk (h : TablesOk T = true) (hx : extraCheck T = true) :
     ∀ args : TArgs, WFArgs T S args = true → argsTyped T S args = true →
       relAll (smArgs T S args) (engArgs T S args) = true
   | .nil => by intro _ _; simp [smArgs, engArgs, relAll]
@@ -310,7 +336,7 @@ theorem relArgs_of_tablesOk (h : TablesOk T = true) :
     simp only [WFArgs, Bool.and_eq_true] at hw
     simp only [argsTyped, typedOperand, Bool.and_eq_true] at ht
     simp only [smArgs, engArgs, relAll, Bool.and_eq_true]
-    exact ⟨⟨rel_of_tablesOk h e hw.1, ht.1.2⟩, relArgs_of_tablesOk h rest hw.2 ht.2⟩
+    exact ⟨⟨rel_of_tablesOk h hx e hw.1, ht.1.2⟩, relArgs_of_tablesOk h hx rest hw.2 ht.2⟩
 end
 
 /-! ### the per-call cache of child-scope projections is transparent when its key contains the scope -/
